@@ -94,7 +94,7 @@ pub fn gen_scenario(r: &mut Sm, case: u64, tier: &str, lowrank: bool) -> Scenari
             let g: Vec<f64> = (0..dim).map(|i| -(x[i] - mu[i] * sd[i]) / (sd[i] * sd[i])).collect();
             (x, g)
         };
-        let (x, g) = point(r); ops.push(Op::Init(x, g));
+        let (x, g) = point(r); ops.push(Op::Init(x, g)); ops.push(Op::Adapt);
         let rounds = 1 + r.below(3);
         for _ in 0..rounds {
             let n = 2 + r.below(if lowrank { 3 * dim as u64 + 4 } else { 12 });
@@ -124,7 +124,7 @@ pub fn gen_scenario(r: &mut Sm, case: u64, tier: &str, lowrank: bool) -> Scenari
         };
         // the start point must be acceptable to `init` only for finite gradients; use a benign one half of the time
         let (x0, g0) = if r.coin() { ((0..dim).map(|_| r.normal()).collect(), (0..dim).map(|_| r.normal()).collect()) } else { point(r) };
-        ops.push(Op::Init(x0, g0));
+        ops.push(Op::Init(x0, g0)); ops.push(Op::Adapt);
         let rounds = 1 + r.below(4);
         for _ in 0..rounds {
             let n = r.below(10);
@@ -156,6 +156,19 @@ pub fn oracle(sc: &Scenario, outs: &[AdaptOut]) -> Option<(String, String)> {
                 }
                 if !o.logdet.is_finite() { return Some((format!("{kind}.logdet"), format!("adapt #{k}: log-determinant {}", o.logdet))); }
                 for (j, e) in o.eig_sqrt.iter().enumerate() { if !(e.is_finite() && *e > 0.0 && o.eig_sqrt_inv[j].is_finite() && o.eig_sqrt_inv[j] > 0.0) { return Some((format!("{kind}.degenerate_eigenvalue"), format!("adapt #{k}: sqrt eigenvalue {j} is {e} (inverse {})", o.eig_sqrt_inv[j]))); } }
+                // invalid estimates leave the previous value in place: a coordinate whose window is constant (zero variance of the
+                // draws or of the gradients) keeps its scale bit for bit
+                if !sc.lowrank && k >= 2 && fg.len() >= 3 {
+                    let prev = &outs[k - 2];
+                    for c in 0..sc.dim {
+                        let cx = fg.iter().all(|(x, _)| x[c].is_finite() && x[c].to_bits() == fg[0].0[c].to_bits());
+                        let cg = fg.iter().all(|(_, g)| g[c].is_finite() && g[c].to_bits() == fg[0].1[c].to_bits());
+                        let other_finite = fg.iter().all(|(x, g)| x[c].is_finite() && g[c].is_finite());
+                        if (cx || cg) && other_finite && (o.stds[c].to_bits() != prev.stds[c].to_bits() || o.inv[c].to_bits() != prev.inv[c].to_bits()) {
+                            return Some(("diag.invalid_not_kept".into(), format!("adapt #{k}: coordinate {c} has a constant {} window (zero variance) but its scale changed from {} to {}", if cx { "draw" } else { "gradient" }, prev.stds[c], o.stds[c])));
+                        }
+                    }
+                }
                 if fg.len() < 3 && o.changed { return Some((format!("{kind}.early_change"), format!("adapt #{k} changed the transformation with {} samples", fg.len()))); }
                 if let Some((mean, sd)) = &sc.gaussian {
                     if fg.len() >= 3 && !sc.lowrank {
